@@ -61,6 +61,15 @@ func (g *egen) leaf() etree {
 		return etree{err: e, leaves: []error{e}, typed: []*typedErr{e}, desc: e.Error(), plain: true}
 	case 3:
 		// the wrapper is the supplied constituent; the inner error must stay reachable
+		if simrt.Choose(3) == 0 {
+			// a single %w around a standard multi-error: the wrapper has only
+			// Unwrap() error, so it is kept intact, and both inner errors must
+			// be found through it
+			x := &errSentinel{fmt.Sprintf("multi-%da", g.next)}
+			y := &typedErr{code: g.next}
+			e := fmt.Errorf("ctx-%d: %w", g.next, errors.Join(x, y))
+			return etree{err: e, leaves: []error{e}, inners: []error{x, y}, typed: []*typedErr{y}, desc: e.Error(), plain: true}
+		}
 		if simrt.Choose(2) == 0 {
 			inner := &typedErr{code: g.next}
 			e := fmt.Errorf("ctx-%d: %w", g.next, inner)
@@ -310,6 +319,12 @@ func judgeTree(w *W, t etree, where string) {
 				ok = true
 			}
 		}
+		for _, l := range t.inners {
+			// (reached through a supplied wrapper, possibly via a multi-error)
+			if l == u {
+				ok = true
+			}
+		}
 		if !ok {
 			invented++
 		}
@@ -354,6 +369,29 @@ func c12Trees(w *W) {
 	w.Config("flat=Join(%s) tree=%s", desc, t.desc)
 	w.State(fmt.Sprintf("depth=%d leaves=%d", depth, min(len(t.leaves), 6)))
 	judgeTree(w, t, "tree")
+	// through single wrapping: an aggregate that somebody annotates with %w is
+	// still unwound into its constituents (Unwind is preferred over Unwrap at
+	// every level, not only at the top), and Is/As still reach them
+	if !isNilErr(t.err) && len(w.Out.Violations) == 0 {
+		outer := fmt.Errorf("outer: %w", t.err)
+		list := ers.Unwind(outer)
+		for _, l := range t.leaves {
+			c := 0
+			for _, u := range list {
+				if u == l {
+					c++
+				}
+			}
+			if c != 1 {
+				w.Violate("unwind-count", "unwind-count:through-single-wrap", "%s: constituent %v appears %d times in Unwind(fmt.Errorf(\"outer: %%w\", result)) = %v", t.desc, l, c, list)
+				break
+			}
+			if !errors.Is(outer, l) {
+				w.Violate("is-lost", "is-lost:through-single-wrap", "%s: errors.Is(fmt.Errorf(\"outer: %%w\", result), %v) is false", t.desc, l)
+				break
+			}
+		}
+	}
 	// helpers that decide "is this an error at all" must agree with != nil
 	for _, d := range append(append([]error{}, g.derived...), t.err) {
 		if isNilErr(d) {
